@@ -59,12 +59,13 @@ def M():
       _mods[name] = None
       _mods.setdefault('import_failures', []).append('%s: %r' % (name, e))
   _install_hash_recorder()
-  # BBOB functions that cannot be evaluated in this environment (numpy >= 2 refuses float() of a
-  # 1-element array: NegativeSphere, NegativeMinDifference) are left out and named in the evidence
+  # BBOB functions that cannot be evaluated in this environment (this numpy refuses float() of a
+  # 1-element array with ndim > 0, which about half of bbob.py relies on) are left out and named in the evidence
   usable = []
   for fn in list(BBOB_FUNCTIONS):
     try:
-      float(getattr(bbob, fn)(np.array([0.5, -1.5, 2.0])))
+      for d in (2, 3, 4, 5):
+        float(getattr(bbob, fn)(np.linspace(-1.3, 2.1, d)))
       usable.append(fn)
     except Exception as e:  # pylint: disable=broad-except
       _mods.setdefault('import_failures', []).append('bbob.%s: %s' % (fn, str(e)[:80]))
@@ -347,7 +348,8 @@ def build(spec, flags):
   vz = m['vz']
   k = spec['k']
   if k == 'base':
-    return Node(spec, [], build_base(spec))
+    real = build_base(spec)
+    return Node(spec, [], real, {'problem': canon_problem(real.problem_statement())})
   if k in ('switch', 'multi'):
     kids = [build(s, flags) for s in spec['kids']]
     if k == 'switch':
@@ -361,6 +363,7 @@ def build(spec, flags):
   if k == 'shift':
     real = m['shifting'].ShiftingExperimenter(e, np.array(spec['s']) if len(spec['s']) > 1 or spec.get('vec') else spec['s'][0],
                                               should_restrict=spec['restrict'])
+    extra['dim'] = len(e.problem_statement().search_space.parameters)
   elif k == 'signflip':
     real = m['signflip'].SignFlipExperimenter(e, flip_objectives_only=spec['objOnly'])
   elif k == 'permute':
@@ -419,7 +422,7 @@ def ex_json(node, flags, base_tables=None, path=()):
   k = node.kind
   sp, ex = node.spec, node.extra
   if k == 'base':
-    prob = canon_problem(node.real.problem_statement())
+    prob = ex['problem']
     j = {'k': 'base', 'params': prob['params'], 'metrics': prob['metrics']}
     if base_tables is not None:
       j['table'] = base_tables.get(path, [])
@@ -432,8 +435,7 @@ def ex_json(node, flags, base_tables=None, path=()):
     return {'k': 'multi', 'keepInf': flags['multi'], 'kids': kids}
   e = ex_json(node.kids[0], flags, base_tables, path + (0,))
   if k == 'shift':
-    dim = len(node.kids[0].real.problem_statement().search_space.parameters)
-    s = list(np.broadcast_to(np.array(sp['s'], dtype=float), (dim,)))
+    s = list(np.broadcast_to(np.array(sp['s'], dtype=float), (ex['dim'],)))
     return {'k': 'shift', 's': [cd.hexf(x) for x in s], 'restrict': sp['restrict'], 'e': e}
   if k == 'signflip':
     return {'k': 'signflip', 'objOnly': sp['objOnly'], 'e': e}
@@ -453,7 +455,7 @@ def ex_json(node, flags, base_tables=None, path=()):
   if k == 'sparse':
     return {'k': 'sparse', 'pre': sp['pre'], 'extra': ex['extra'], 'e': e}
   if k == 'hashinf':
-    rec = HASH_REC.get(id(node.real), [])
+    rec = ex.get('hash_rec', [])
     return {'k': 'infeasible', 'mode': 'table', 'table': [{'x': x, 'r': r} for x, r in rec], 'e': e}
   if k == 'regioninf':
     return {'k': 'infeasible', 'mode': 'region', 'param': sp['param'], 'plo': ex['plo'], 'phi': ex['phi'],
@@ -792,13 +794,17 @@ def run_real(c, spec, flags, rng, n_batches, max_batch, points=None):
                          for t, b, a, q in zip(trials, before, after, eq_before)])
     c.traces += len(trials)
   case.problem_after = canon_problem(node.real.problem_statement())
-  for n in node.walk():
-    by_value_check(c, n, case.desc)
+  for n in reversed(list(node.walk())):           # innermost first; the first offender is the culprit
+    if not by_value_check(c, n, case.desc):
+      break
   case.counters1 = {id(n): noise_counter(n) for n in node.walk() if n.kind == 'noisy'}
   for n in node.walk():
     if n.kind == 'noisy':
       n.extra['send'] = noise_counter(n) + 64
-  case.hash_rec = {id(n): list(HASH_REC.get(id(n.real), [])) for n in node.walk() if n.kind == 'hashinf'}
+  for n in node.walk():
+    if n.kind == 'hashinf':
+      n.extra['hash_rec'] = list(HASH_REC.get(id(n.real), []))
+  case.hash_rec = {id(n): n.extra['hash_rec'] for n in node.walk() if n.kind == 'hashinf'}
   return case
 
 
@@ -920,7 +926,19 @@ def identify_variants(c):
   m = M()
   vz = m['vz']
   flags = {}
-  # (1) infeasibility carried through hyper-cube / switch / multi-objective wrappers
+  # (1) problem statement by reference (the two infeasible experimenters)
+  byval = True
+  for spec in ({'k': 'hashinf', 'prob': 0.2, 'seed': 0, 'e': SPHERE2}, {'k': 'regioninf', 'param': 'x0', 'interval': [0.0, 0.2], 'e': SPHERE2}):
+    node = build(spec, SPEC_FLAGS)
+    before_violations = len(c.violations) + sum(v[1] for v in c.known_hits.values())
+    ok = by_value_check(c, node, describe(spec))
+    byval = byval and ok
+  flags['byValue'] = byval
+  if not byval:
+    install_by_value_shim()
+    c.notes.append('HashingInfeasibleExperimenter/ParamRegionInfeasibleExperimenter.problem_statement() return their internal object (reported); '
+                   'the generated stackings are evaluated with a by-value shim around these two getters so that the other comparisons stay meaningful')
+  # (2) infeasibility carried through hyper-cube / switch / multi-objective wrappers
   for kind, spec, pt in (
       ('hypercube', {'k': 'hypercube', 'e': ALWAYS_INF}, {'h0': 0.25, 'h1': 0.75}),
       ('switch', {'k': 'switch', 'sw': 'switch', 'metric': 'switch_metric', 'kids': [ALWAYS_INF, SPHERE2]}, {'switch': 0, 'x0': 1.0, 'x1': 2.0}),
@@ -939,7 +957,7 @@ def identify_variants(c):
       c.prop_fail(KEY_INF_DROP % kind,
                   '%s over an experimenter that marks the point infeasible reports the trial as feasible: %s' % (describe(spec), res),
                   {'stack': describe(spec), 'spec': spec, 'point': pt, 'real': res})
-  # (2) permuting an integer-valued parameter
+  # (3) permuting an integer-valued parameter
   kd = {'k': 'base', 'fam': 'simplekd', 'best': 'corner', 'nf': 1, 'nd': 1, 'ni': 1, 'rel': True}
   spec = {'k': 'permute', 'names': ['discrete_0', 'int_0'], 'seed': 1, 'e': kd}
   node = build(spec, SPEC_FLAGS)
@@ -956,18 +974,6 @@ def identify_variants(c):
   if not flags['permuteInt']:
     c.prop_fail(KEY_PERM_INT, 'PermutingExperimenter over integer-valued DISCRETE/INTEGER parameters cannot evaluate any trial: %s' % res,
                 {'stack': describe(spec), 'spec': spec, 'point': pt, 'real': res})
-  # (3) problem statement by reference (the two infeasible experimenters)
-  byval = True
-  for spec in ({'k': 'hashinf', 'prob': 0.2, 'seed': 0, 'e': SPHERE2}, {'k': 'regioninf', 'param': 'x0', 'interval': [0.0, 0.2], 'e': SPHERE2}):
-    node = build(spec, SPEC_FLAGS)
-    before_violations = len(c.violations) + sum(v[1] for v in c.known_hits.values())
-    ok = by_value_check(c, node, describe(spec))
-    byval = byval and ok
-  flags['byValue'] = byval
-  if not byval:
-    install_by_value_shim()
-    c.notes.append('HashingInfeasibleExperimenter/ParamRegionInfeasibleExperimenter.problem_statement() return their internal object (reported); '
-                   'the generated stackings are evaluated with a by-value shim around these two getters so that the other comparisons stay meaningful')
   # (4) normaliser statistics with infeasible samples
   spec = {'k': 'normalize', 'n': 8, 'seed': 42, 'e': {'k': 'hashinf', 'prob': 0.5, 'seed': 3, 'e': SPHERE2}}
   node = build(spec, SPEC_FLAGS)
@@ -1017,7 +1023,7 @@ def corpus_specs():
       {'k': 'switch', 'sw': 'switch', 'metric': 'switch_metric', 'kids': [SPHERE2, kd, br]},
       {'k': 'hashinf', 'prob': 0.5, 'seed': 2, 'e': ros},
       {'k': 'regioninf', 'param': 'x1', 'interval': [0.0, 0.4], 'e': br},
-      {'k': 'multi', 'names': ['a', 'b'], 'kids': [SPHERE2, {'k': 'signflip', 'objOnly': True, 'e': dict(SPHERE2, fn='Rastrigin')}]},
+      {'k': 'multi', 'names': ['a', 'b'], 'kids': [SPHERE2, {'k': 'signflip', 'objOnly': True, 'e': dict(SPHERE2, fn='SharpRidge')}]},
       {'k': 'hypercube', 'e': {'k': 'hashinf', 'prob': 0.5, 'seed': 1, 'e': SPHERE2}},
       {'k': 'signflip', 'objOnly': True, 'e': {'k': 'switch', 'sw': 'switch', 'metric': 'm', 'kids': [{'k': 'hashinf', 'prob': 0.5, 'seed': 4, 'e': SPHERE2}, br]}},
       {'k': 'multi', 'names': ['a', 'b'], 'kids': [SPHERE2, {'k': 'regioninf', 'param': 'x0', 'interval': [0.0, 0.5], 'e': SPHERE2}]},
